@@ -376,8 +376,8 @@ func verifSARun(t *testing.T, in *verifSAIn, outs []verifSAOut) {
 		} else if c.Ep == "arrow" || c.Ep == "msgpack" {
 			o.Success = status == 200
 		}
-		if len(o.Err) > 400 {
-			o.Err = o.Err[:400]
+		if status != 400 && len(o.Err) > 400 {
+			o.Err = o.Err[:400] // (validation messages quote the offending name: kept whole)
 		}
 		if len(o.Data) > 1<<16 {
 			o.Data = nil
